@@ -70,7 +70,17 @@ func countNums(thorough bool) []cty.Value {
 	return out
 }
 
+// deepDict selects the largest alphabets (thorough tier of the reference
+// checks C13/C14, which are cheap per case).
+var deepDict = false
+
 func arithNums(thorough bool) []cty.Value {
+	if thorough && deepDict {
+		out := mkNums(numAlphabet(true))
+		out = append(out, nv(-0.1, 1.5, -1.5, 0.25, -0.75, 0.999999, -0.999999, 1.000001, -1e-9, 1e-9, 99.5, -99.5, 1e15, 123456789.125, 4, 5, 8, 16, 100, -10, 0.3, 1e100, -1e100)...)
+		out = append(out, parseNum("0.3"), parseNum("-0.1"), parseNum("123456789012345678901234567890"), parseNum("-123456789012345678901234567890.5"), parseNum("1e-30"), parseNum("3.000000000000000000000000000001"), parseNum("2.999999999999999999999999999999"))
+		return out
+	}
 	if thorough {
 		return mkNums(numAlphabet(true))
 	}
@@ -363,6 +373,26 @@ func init() {
 	// format
 	fmts := sv("", "%s", "%d", "%v", "%%", "%q", "%5.2f", "%[2]s %[1]s", "%", "%z", "%[0]d", "%-5s|", "%x", "%t", "%e", "%#v", "%+d", "%05d", "%.1s", "%[3]s", "%*d", "hello",
 		"%s %s", "%b", "%o", "%X", "%g", "%E", "%G", "%5s|", "%.0f", "%[1]s%[1]s", "%[1", "%[a]s", "%!", "%s%", "%3d|", "% d", "%+s", "%#x", "%08.3f", "%.2s|", "%c", "%U", "%10.3v|", "%-08d|", "%+.1e", "%[2]d")
+	genFmts := func() []cty.Value {
+		// the documented verb grammar: % flags width .prec [n] verb
+		var out []cty.Value
+		flagSets := []string{"", "0", "#", "-", "+", " ", "-0", "+0", "0#", "+ ", "-+", "#-", "- "}
+		for _, fl := range flagSets {
+			for _, w := range []string{"", "1", "6"} {
+				for _, pr := range []string{"", ".0", ".1", ".3"} {
+					for _, ix := range []string{"", "[1]", "[2]"} {
+						for _, vb := range "vtbdoxXeEfgGsqz" {
+							out = append(out, cty.StringVal("<%"+fl+w+pr+ix+string(vb)+">"))
+						}
+					}
+				}
+			}
+		}
+		for _, two := range []string{"%s%s", "%[2]s%s", "%[2]s%[1]s", "%s%[1]s", "%d-%d", "%[1]d %[1]x %[1]o", "%v %v", "%s %%", "%% %s", "a%sb%sc", "%[2]v", "%[3]s", "%s%s%s"} {
+			out = append(out, cty.StringVal(two))
+		}
+		return out
+	}
 	fargs := func(th bool) []cty.Value {
 		out := cat(sv("a", "e\u0301x", ""), nv(1, -2.5, 0), []cty.Value{cty.True, parseNum("1e30"), cty.PositiveInfinity, listOf(cty.String, S("a"), S("b")), listOf(cty.Number), tup(S("x"), N(1)), objOf("a", N(1)), mapOf(cty.String, "k", S("v")), setOf(cty.String, S("s"))})
 		if th {
@@ -370,18 +400,24 @@ func init() {
 		}
 		return out
 	}
-	add("format", stdlib.FormatFunc, func(pos int, th bool) []cty.Value {
+	fmtDict := func(pos int, th bool) []cty.Value {
 		if pos == 0 {
+			if th && deepDict {
+				return cat(fmts, genFmts())
+			}
+			if th {
+				return cat(fmts, sv("%.0s|", "%.1s|", "%3.1s|", "%-3.1s|", "%.2q", "%.0v", "%6.2f|", "%-6d|", "%06d|", "%+.1f", "% d"))
+			}
 			return fmts
 		}
-		return fargs(th)
-	}).MaxVar = 2
-	add("formatlist", stdlib.FormatListFunc, func(pos int, th bool) []cty.Value {
-		if pos == 0 {
-			return fmts
+		out := fargs(th)
+		if th {
+			out = append(out, S("\U0001F44D\U0001F3FDab"), S("q\u0308r"), S("\r\nz"), nv(-0.5, 12345.678)[0], nv(-0.5, 12345.678)[1])
 		}
-		return fargs(th)
-	}).MaxVar = 2
+		return out
+	}
+	add("format", stdlib.FormatFunc, fmtDict).MaxVar = 2
+	add("formatlist", stdlib.FormatListFunc, fmtDict).MaxVar = 2
 	// general
 	add("equal", stdlib.EqualFunc, nil)
 	add("notequal", stdlib.NotEqualFunc, nil)
